@@ -4,7 +4,7 @@ CONSTANTS
   NConn = 1
   MaxReq = 6
   QCapG = 1
-  Kinds = {"single", "stream2", "fail", "rfail", "empty"}
+  Kinds = {"single", "stream2", "fail", "rfail", "empty", "ckfar", "cklen", "nimp"}
   MaxOps = 12
   MaxCredit = 5
   MaxTick = 3
